@@ -35,6 +35,17 @@ def run_task(task):
         res['status'] = 'abort'
         res['exc'] = str(e)
     except Exception as e:      # library exception that the scenario did not expect
+        tb, last = e.__traceback__, None
+        while tb is not None:
+            last = tb.tb_frame.f_code.co_filename
+            tb = tb.tb_next
+        here = os.path.dirname(os.path.dirname(os.path.abspath(__file__)))
+        if last and os.path.realpath(last).startswith(os.path.realpath(here) + os.sep):
+            res['status'] = 'error'          # raised by harness code itself: not a property violation
+            res['exc'] = traceback.format_exc()[-1200:]
+            res['obls'] = E.obls
+            res['obs'] = E.obs
+            return res
         res['status'] = 'ok'
         key = 'unexpected-exception:%s' % type(e).__name__
         E.obls.append({'label': key, 'key': key, 'ok': False,
